@@ -43,16 +43,15 @@ theorem shape_vmPool_abort : vmPool_abort =
 theorem shape_vmPool_acquire : vmPool_acquire =
     [.call "v.root.pool._acquire", .ret] := rfl
 theorem shape_vmPool__acquire : vmPool__acquire =
-    [.sync "_acquire.outside", .lock "v.mu", .deferUnlock "v.mu", .sync "_acquire.inside", .unlock "v.mu", .ret] := rfl
+    [.sync "_acquire.outside", .lock "v.mu", .deferUnlock "v.mu", .sync "_acquire.inside", .poolAdd "v.vms", .unlock "v.mu", .ret] := rfl
 theorem shape_vmPool_release : vmPool_release =
     [.call "v.root.pool._release", .ret] := rfl
 theorem shape_vmPool__release : vmPool__release =
-    [.sync "_release.outside", .lock "v.mu", .sync "_release.inside", .unlock "v.mu", .sync "_release.after", .ret] := rfl
+    [.sync "_release.outside", .lock "v.mu", .sync "_release.inside", .poolDel "v.vms", .unlock "v.mu", .sync "_release.after", .ret] := rfl
 theorem shape_Eval_run : Eval_run =
     [.sync "Eval.run.beforeSelect1", .selectBegin, .caseRecv "ctx.Done()", .call "r.VM.Abort", .caseDefault, .sync "Eval.run.beforeGo", .goBegin, .deferClose "doneCh", .call "r.VM.Run", .close "doneCh", .goEnd, .sync "Eval.run.beforeSelect2", .selectBegin, .caseRecv "ctx.Done()", .call "r.VM.Abort", .recv "doneCh", .caseRecv "doneCh", .selectEnd, .selectEnd, .ret] := rfl
 theorem shape_executeScript : executeScript =
     [.goBegin, .deferClose "done", .call "vm.Run", .close "done", .goEnd, .selectBegin, .caseRecv "done", .caseRecv "ctx.Done()", .call "vm.Abort", .recv "done", .selectEnd, .ret] := rfl
-
 /-! ### what is proved -/
 
 /-- An Abort whose stores landed outside the reset windows (`armedOK`: the root `Store 1`
